@@ -123,6 +123,19 @@ class SSeq:
         return 'SSeq(%s,%s)' % (self.kind, self.t)
 
 
+class SView:
+    """Sequence of ints of *symbolic* length represented as a window (offset, length) into an SMT array.
+    Slices of a view are views of the same array; adjacent views concatenate to a view.  Lengths and offsets are
+    plain integer terms, so the chunking arithmetic of the memory / flash code stays linear.  Mutable kinds are
+    mutated by replacing off / ln (the holder keeps identity)."""
+
+    def __init__(self, arr, off, ln, kind):
+        self.arr, self.off, self.ln, self.kind = arr, off, ln, kind
+
+    def __repr__(self):
+        return 'SView(%s,%s[%s:+%s])' % (self.kind, self.arr, self.off, self.ln)
+
+
 class PDict:
     """dict preserving insertion order; keys may be symbolic (lookup goes through py_eq)."""
 
